@@ -717,8 +717,36 @@ const GR_PIECES: [&str; 24] = [
 pub fn gen_grapheme_text(rng: &mut Rng) -> String {
     let n = rng.range(0, 14);
     let mut s = String::new();
-    for _ in 0..n {
-        s.push_str(GR_PIECES[rng.usize(GR_PIECES.len())]);
+    // one text in four contains a very LONG cluster (a base character under a tall stack of combining
+    // marks, or a long ZWJ chain) whose byte width lies around 255/256, 511/512 or (rarely) 65 535/65 536:
+    // where a width or an offset kept in a narrow integer wraps
+    let long_at = if rng.chance(1, 4) { Some(rng.range(0, n)) } else { None };
+    for i in 0..=n {
+        if long_at == Some(i) {
+            let w = match rng.below(16) {
+                0 => rng.range(65_530, 65_545) as usize,
+                1..=5 => rng.range(506, 518) as usize,
+                _ => rng.range(250, 262) as usize,
+            };
+            if rng.chance(1, 5) {
+                // emoji (4 bytes) joined by ZWJ (3 bytes): about w bytes
+                s.push('\u{1F469}');
+                for _ in 0..(w / 7) {
+                    s.push('\u{200D}');
+                    s.push('\u{1F469}');
+                }
+            } else {
+                // odd widths on a 1-byte base, even widths on a 2-byte base; 2-byte marks
+                let base = if w % 2 == 1 { "e" } else { "\u{00E9}" };
+                s.push_str(base);
+                for k in 0..((w - base.len()) / 2) {
+                    s.push(if k % 3 == 0 { '\u{0301}' } else { '\u{0308}' });
+                }
+            }
+        }
+        if i < n {
+            s.push_str(GR_PIECES[rng.usize(GR_PIECES.len())]);
+        }
     }
     s
 }
@@ -1315,6 +1343,9 @@ impl Engine for SrcSim {
                     d = fold(d, crate::prng::fold_bytes(shape as u64, text.as_bytes()));
                     let nclusters = graphemes_reference(&text).len();
                     acc.add("graphemes.clusters_compared", nclusters as u64);
+                    if shape == 0 && graphemes_reference(&text).iter().any(|c| c.0.len() > 255) {
+                        acc.inc("graphemes.texts_with_a_cluster_wider_than_255_bytes");
+                    }
                     if nclusters >= 2 && graphemes_reference(&text).iter().any(|c| c.0.chars().count() > 1) {
                         acc.distinct("nontrivial_cases", fold(d, 0x67));
                     }
